@@ -15,7 +15,8 @@ Section Box.
   Local Notation vec := (list T).
   Definition bound := (option T * option T)%type.
 
-  (* np.maximum(lb, np.minimum(x, ub)) for one component *)
+  (* np.maximum(lb, np.minimum(x, ub)) for one component; None = infinite bound.  With both bounds finite this is the regenerated
+     kernel project_n1 (proofs/L_C05.v: clamp_is_generated, project_is_generated_n2/n3) *)
   Definition clamp (x : T) (b : bound) : T :=
     let m := match snd b with Some u => if nltb x u then x else u | None => x end in
     match fst b with Some l => if nltb l m then m else l | None => m end.
@@ -33,14 +34,13 @@ Section Box.
   (* the step length used by one SPG iteration (repo commit d722144):
        alpha = line_search(ds, sBs, q, qMax, settings)
        alpha = min(1.0, max(0.0, alpha)) if sBs > 0 else 1.0
-     Python's max(0.0, a) is a if a > 0.0 else 0.0; min(1.0, m) is m if m < 1.0 else 1.0 (a NaN is clipped to 0). *)
-  Definition clip01 (a : T) : T :=
-    let m := if nltb nzero a then a else nzero in
-    if nltb m nunit then m else nunit.
+     Both line searches AND the clip statement are the kernels regenerated from the source (gen/Gen_TrustRegionSPG.v:
+     nonmonotone_line_search, kouri_exact_line_search, spg_step_clip = the 2nd of the 2 assignments to alpha in
+     solve_spg_subproblem, python's min/max with CPython's evaluation order: a NaN is clipped to 0). *)
   Definition line_search_alpha (nonmonotone : bool) (ds sBs q qMax : T) : T :=
     if nonmonotone then nonmonotone_line_search ds sBs q qMax nzero else kouri_exact_line_search ds sBs q qMax nzero.
   Definition spg_alpha (nonmonotone : bool) (ds sBs q qMax : T) : T :=
-    if nltb nzero sBs then clip01 (line_search_alpha nonmonotone ds sBs q qMax) else nunit.
+    spg_step_clip (line_search_alpha nonmonotone ds sBs q qMax) sBs.
   (* z += alpha*s with s = project_onto_tr(...) - xNew : the new trial point x + z *)
   Definition spg_update (xNew p : vec) (alpha : T) : vec := vaxpy xNew alpha (vsub p xNew).
 
